@@ -24,6 +24,7 @@
  *   cfg_need_unknown  1: at least one member has no size (partitions of the "unknown layout" clause)
  *   cfg_after      1: members after the first one without size are K_BASIC or K_CBMEMBER only
  *                  (the kernel does not look at them any more; keeps those partitions small)
+ *   cfg_azt        1: the zero-terminated flag of fixed-size arrays is symbolic (no influence on layout)
  *   cfg_twin       1: vacuity twin - the final assertion is false
  *   kind[i]  sym   member kind; then per kind (all sym):
  *     tagi[x] index into TAGS | ptag[x] any tag, used as pointer | eflags[x], ev0[x], ev1[x] enum or
@@ -174,7 +175,7 @@ static void h_layout (int is_union, int n, const H_Exp *m, uint32_t *off, H_Exp 
 
 /* ------------------------------------------------------------------ graph construction */
 
-static int cfg_tags, cfg_enum, cfg_maxdims, cfg_aelem, cfg_unsized, cfg_ntypes, cfg_nm, cfg_nptr;
+static int cfg_azt, cfg_tags, cfg_enum, cfg_maxdims, cfg_aelem, cfg_unsized, cfg_ntypes, cfg_nm, cfg_nptr;
 static int h_wide_enums;
 
 static void h_type_init (GIrNodeType *t)
@@ -271,6 +272,7 @@ void llsym_main (void)
   int seen_unknown = 0, expect_fatal = 0;
   GIrNode *topnode;
 
+  cfg_azt = __llsym_nondet_i32 ("cfg_azt", -1);
   cfg_tags = __llsym_nondet_i32 ("cfg_tags", -1);
   cfg_enum = __llsym_nondet_i32 ("cfg_enum", -1);
   cfg_maxdims = __llsym_nondet_i32 ("cfg_maxdims", -1);
@@ -330,6 +332,9 @@ void llsym_main (void)
                 h_types[i][d].is_array = 1;
                 h_types[i][d].has_size = d == 0 ? has : 1;
                 h_types[i][d].size = len;
+                /* attributes a fixed-size C array's layout does not depend on */
+                if (cfg_azt)
+                  h_types[i][d].zero_terminated = __llsym_nondet_u8 ("azt", i * ADIM + d) & 1;
                 h_types[i][d].parameter_type1 = &h_types[i][d + 1];
               }
             __llsym_assume (count <= (1 << 24));    /* byte size stays far inside int */
